@@ -129,6 +129,23 @@ var verifC15Src = []string{
 	   @top := @lv;
 	 end if;
 	 if 1 = 1 then var @lv := 9; @after := @lv; end if;`,
+	// 16: after a function has returned from inside a WHILE loop, the invocations of a recursive function and
+	// nested blocks still get scopes of their own (the loop's scope must be given back exactly once)
+	`declare fr function (@m) as begin
+	   var @i := 0;
+	   while true do @i := @i + 1; if @i >= @m then return @i; end if; end while;
+	 end;
+	 declare sd function (@k) as begin
+	   if @k <= 0 then return 0; end if;
+	   var @mine := @k;
+	   var @rest := sd(@k - 1);
+	   return @mine + @rest;
+	 end;
+	 var @first := fr(@n);
+	 var @total := sd(4);
+	 var @deep := 0; var @mid := 0;
+	 if 1 = 1 then var @lv := 1; if 1 = 1 then var @lv := 2; @deep := @lv; end if; @mid := @lv; end if;
+	 var @again := fr(2) * 100 + sd(3);`,
 }
 
 var verifC15Progs [][]parser.Statement
@@ -279,6 +296,16 @@ func VerifC15Programs() {
 		verifAssert("the aggregate sees its rows", get("sum") == 6 && get("sum2") == 3)
 		verifAssert("nested blocks shadow level by level after an aggregate has run", get("deep") == 3 && get("mid") == 2 && get("top") == 1 && get("after") == 9)
 		verifAssert("block variables are gone", !verifHasVar(scope, "lv") && !verifHasVar(scope, "s"))
+	case 16:
+		wantFirst := n
+		if wantFirst < 1 {
+			wantFirst = 1
+		}
+		verifAssert("RETURN from inside WHILE TRUE", get("first") == wantFirst)
+		verifAssert("recursive invocations keep their own locals after a loop was left by RETURN", get("total") == 10)
+		verifAssert("nested blocks shadow level by level after a loop was left by RETURN", get("deep") == 2 && get("mid") == 1)
+		verifAssert("and again", get("again") == 206)
+		verifAssert("locals are gone", !verifHasVar(scope, "mine") && !verifHasVar(scope, "lv") && !verifHasVar(scope, "i"))
 	case 10, 11:
 		var i, sum int64
 		for i < n {
